@@ -15,12 +15,14 @@ C14 line-protocol driver.
     key ids are renamed in order of first appearance in the answer.
 
   as <ev>;<ev>;…        a history of config loads and process restarts on one autosave directory
-      ev    = R | L<n>:<flags>:<fault>
+      ev    = R | U | L<n>:<flags>:<fault>
+              (U = restart with `--resume`: the new process loads, with forceReload, whatever the
+               autosave file holds; nothing is loaded when there is no file)
       flags = one of d p n (persist absent / true / false), then any of
               f (forceReload) x (provision fails) y (start fails) j (does not decode) i (has an @id) z (config is null)
       fault = - | K<k> | F<k>   the k-th file operation of this load: process killed before it / it fails without effect
     answer: per event  `<res>[<ops>]{p=…,t=…}`  joined by ` `
-      res = ok | same | rej | killed | R
+      res = ok | same | rej | killed | R | U:<content>=<res of the resumed load> | U:-
       ops = c:<f> | w:<f>:<content> | mv:<f>><f>       f = p | t
       content = - (absent) | e (empty) | <n><flags> (exactly that config) | ~ (anything else)
 -/
@@ -217,20 +219,53 @@ def aEventOut (sty : Style) : AEvent → AState → String
       ++ fsName (loadStep sty l ft a).st.fs
   | .restart, a => "R[]" ++ fsName a.fs
 
-def asOut (sty : Style) : List AEvent → AState → List String
-  | [], _ => []
-  | e :: es, a => aEventOut sty e a :: asOut sty es (e.step sty a)
+/-- a step of an `as` line: an event of the model, or a restart with `--resume` -/
+inductive ASStep
+  | ev (e : AEvent)
+  | resume
 
-/-- at most one fault per process life (between two `R`): the harness injects a single fault
+/-- the load `--resume` performs on file content `c` (inverse of `cfgBytes`); `none` when the
+    content is not a config of this protocol -/
+def loadOfContent (c : Bytes) : Option Load :=
+  if c == str "null" then
+    some { cfg := c, force := true, accepted := true, nonNil := false, persistCfg := true, allowPersist := true }
+  else
+    match (bytesToString c).toList.span Char.isDigit with
+    | (num, p :: rest) =>
+      if num.isEmpty || !isPersistFlag p || !rest.all isOtherFlag || !allDistinct rest || rest.contains 'f'
+          || rest.contains 'z' then none else
+      some { cfg := c, force := true
+             accepted := !(rest.contains 'x' || rest.contains 'y' || rest.contains 'j')
+             nonNil := true, persistCfg := p != 'n', allowPersist := true }
+    | _ => none
+
+def asOut (sty : Style) : List ASStep → AState → List String
+  | [], _ => []
+  | .ev e :: es, a => aEventOut sty e a :: asOut sty es (e.step sty a)
+  | .resume :: es, a =>
+    match resumeConfig a with
+    | none => ("U:-[]" ++ fsName a.fs) :: asOut sty es (AEvent.restart.step sty a)
+    | some c =>
+      match loadOfContent c with
+      | some l =>
+        ("U:" ++ contentName (some c) ++ "=" ++ aEventOut sty (.load l none) (AEvent.restart.step sty a))
+          :: asOut sty es ((AEvent.load l none).step sty (AEvent.restart.step sty a))
+      | none => ("U:" ++ contentName (some c) ++ "=rej[]" ++ fsName a.fs) :: asOut sty es (AEvent.restart.step sty a)
+
+def parseASStep (s : String) : Option ASStep :=
+  if s == "U" then some .resume else (parseAEvent s).map .ev
+
+/-- at most one fault per process life (between two `R`/`U`): the harness injects a single fault
     into a traced process -/
-def oneFaultPerLife : List AEvent → Nat → Bool
+def oneFaultPerLife : List ASStep → Nat → Bool
   | [], _ => true
-  | .restart :: es, _ => oneFaultPerLife es 0
-  | .load _ none :: es, n => oneFaultPerLife es n
-  | .load _ (some _) :: es, n => n == 0 && oneFaultPerLife es 1
+  | .resume :: es, _ => oneFaultPerLife es 0
+  | .ev .restart :: es, _ => oneFaultPerLife es 0
+  | .ev (.load _ none) :: es, n => oneFaultPerLife es n
+  | .ev (.load _ (some _)) :: es, n => n == 0 && oneFaultPerLife es 1
 
 def handleAS (hist : String) : String :=
-  match (hist.splitOn ";").mapM parseAEvent with
+  match (hist.splitOn ";").mapM parseASStep with
   | some evs =>
     if oneFaultPerLife evs 0 then " ".intercalate (asOut codeStyle evs ⟨none, ⟨none, none⟩⟩) else "bad-op"
   | none => "bad-op"
